@@ -22,6 +22,11 @@ def sources():
         add('array-element:' + tag, const, gdecl='%sint tv[2] = {1, 2};' % c, target='tv[0]', lv='(idx (id %s))' % ('(array (const (base)))' if const else '(array (base))'))
         add('array-of-struct-field:' + tag, const, gdecl='%sS tv[2] = {{1, 2}, {3, 4}};' % c, target='tv[1].b', lv='(dot 0 (idx (id %s)))' % ('(array (const %s))' % S_T if const else '(array %s)' % S_T))
         add('typedef:' + tag, const, gdecl='typedef %sint CI;\nCI tv = 1;' % c, target='tv', lv='(id (label %s))' % (w % '(base)'))
+    # a struct that mixes an array-of-const field with a mutable field (the builder rejects directly-const fields only)
+    add('struct-const-array-field:const', True, gdecl='struct { const int a[2]; int b; } tv = {{1, 2}, 3};', target='tv.a[0]', lv='(idx (dot 0 (id (record (array (const (base))) (base)))))')
+    add('struct-const-array-field:mutable', False, gdecl='struct { int a[2]; int b; } tv = {{1, 2}, 3};', target='tv.a[0]', lv='(idx (dot 0 (id (record (array (base)) (base)))))')
+    add('nested-struct-const-array-field:const', True, gdecl='struct { struct { const int a[2]; int c; } in; int b; } tv = {{{1, 2}, 4}, 3};', target='tv.in.a[1]',
+        lv='(idx (dot 0 (dot 0 (id (record (record (array (const (base))) (base)) (base))))))')
     # binders are constant by construction
     add('forall-binder', True, target='tv', lv='(id (const (range (base))))', place='quant:forall')
     add('exists-binder', True, target='tv', lv='(id (const (range (base))))', place='quant:exists')
